@@ -319,6 +319,8 @@ func tableLayout(context *layoutContext, table_ bo.TableBoxITF, bottomSpace pr.F
 							rowBottomY = v
 						}
 					}
+					// a cell spanning from the rows above may end before this row starts
+					rowBottomY = pr.Max(rowBottomY, row.PositionY)
 					row.Height = pr.Max(rowBottomY-row.PositionY, 0)
 				} else {
 					var m pr.Float
